@@ -215,10 +215,13 @@ fn handle_diagnostics(
         match project {
             Some(set) => {
                 for file_id in unique_files {
-                    if let Some(content) = set.get(file_id) {
-                        let id = files.add(file_id.to_string(), content.as_string());
-                        files_to_ids.insert(file_id, id);
-                    }
+                    // A diagnostic that is not about a file of the project
+                    // (such as a set without content) is still shown
+                    let content = set
+                        .get(file_id)
+                        .map_or(empty_source.as_str(), |content| content.as_string());
+                    let id = files.add(file_id.to_string(), content);
+                    files_to_ids.insert(file_id, id);
                 }
             }
             None => {
